@@ -489,6 +489,10 @@ TRUSTED = [
     "(compute_batch_size / batch_completed scheduling points) and every event's observations and state snapshot "
     "(taken, n_dispatched_tasks, n_completed_tasks, len(_jobs), _iterating, _aborting, look-ahead queue size, _running, "
     "exact submitted batches) are compared with the model",
+    "hand-written model coq/Model/ParallelSync.v (backends with supports_retrieve_callback = False; shares the dispatch-side "
+    "functions of ParallelCore.v), tied to the code by harness/impl/m1s_driver.py: scheduling points compute_batch_size / "
+    "retrieve_result / batch_completed and the poll sleep of joblib.parallel (its module-level `time` name is replaced by a "
+    "proxy in the child interpreter), so that run is deterministic; same per-event comparison",
     "backend contract (hypothesis): the completion callback is invoked at most once per submitted batch with that "
     "batch's own result; batches run their tasks once each, in order",
     "not modelled: unlocked flag reads inside the polling loop at bytecode granularity (layer B), wall-clock latency, "
@@ -559,6 +563,9 @@ def standard_replay(ctx, path, prop):
     obj = json.load(open(path))
     rep = obj.get("replay", obj)
     case = rep.get("case")
+    if case and case.get("sync"):
+        import m1s_common
+        return m1s_common.replay(case, prop)
     if not case or not case.get("events"):
         print("replay file names a broken proof/correspondence, nothing to execute:", rep.get("kind"))
         return 1
@@ -582,7 +589,8 @@ def real_cases(rng, n, fail_rate):
         c = {"backend": backend, "n_jobs": n_jobs, "batch_size": rng.choice(["auto", 1, 2, 3, 7]),
              "pre_dispatch": rng.choice(["all", "2*n_jobs", "n_jobs", 1, 3, "1.5*n_jobs"]),
              "return_as": rng.choice(["list", "list", "generator", "generator_unordered"]), "N": N,
-             "tfail": [], "ifail": None, "reuse": 2, "seed": rng.randint(0, 10 ** 6), "with_block": rng.random() < 0.4}
+             "tfail": [], "ifail": None, "reuse": 2, "seed": rng.randint(0, 10 ** 6), "with_block": rng.random() < 0.4,
+             "verbose": rng.choice([0, 0, 0, 1, 11, 60])}
         if N and rng.random() < fail_rate:
             if rng.random() < 0.3:
                 c["ifail"] = rng.randint(0, N)
@@ -778,24 +786,37 @@ def auto_batch(ctx, quick):
     return {"auto_batch_sequences": len(cases), "auto_batch_branches": branches, "auto_batch_disagreements": nd}
 
 
+def sync_backend(ctx, quick, prop, profile, scale=1.0):
+    """Model/ParallelSync.v against joblib.Parallel with a backend that has supports_retrieve_callback = False"""
+    import m1s_common
+    return m1s_common.check(ctx, prop, profile, quick, scale)
+
+
 def extra_c01(ctx, quick):
     f6_replay(ctx)
     cov = real_sampling(ctx, quick, "C01", 0.0)
     cov.update(lock_probe(ctx, quick, "C01"))
     cov.update(auto_batch(ctx, quick))
+    cov.update(sync_backend(ctx, quick, "C01", "c01"))
     return cov
 
 
 def extra_c04(ctx, quick):
-    return real_sampling(ctx, quick, "C04", 0.7)
+    cov = real_sampling(ctx, quick, "C04", 0.7)
+    cov.update(sync_backend(ctx, quick, "C04", "c04"))
+    return cov
 
 
 def extra_c09(ctx, quick):
-    return lock_probe(ctx, quick, "C09")
+    cov = lock_probe(ctx, quick, "C09")
+    cov.update(sync_backend(ctx, quick, "C09", "c04", 0.5))
+    return cov
 
 
 def extra_c16(ctx, quick):
-    return real_sampling(ctx, quick, "C16", 0.2)
+    cov = real_sampling(ctx, quick, "C16", 0.2)
+    cov.update(sync_backend(ctx, quick, "C16", "c01", 0.5))
+    return cov
 
 
 EXTRA = {"c01": extra_c01, "c04": extra_c04, "c09": extra_c09, "c16": extra_c16}
